@@ -84,3 +84,25 @@ Definition node_args (s : selection) : list (name * value) :=
   match s with SField _ _ _ args _ _ => args | _ => [] end.
 Definition args_ok (D : document) : bool :=
   forallb (fun x => names_nodup (map fst (node_args x))) (List.concat (doc_lists D)).
+
+(* the longest spread chain from a fragment, with fuel; after |fragments| + 1 steps it is a
+   rank of the document iff no fragment reaches itself (Proofs/ValidateRank.v) *)
+Section Lp.
+Variable D : document.
+Fixpoint lp (n : nat) (g : name) : nat :=
+  match n with
+  | O => O
+  | Datatypes.S n' =>
+    match frag D g with
+    | None => O
+    | Some fr => Datatypes.S (list_max (map (lp n') (all_spreads (fr_sel fr))))
+    end
+  end.
+Definition lp_rank (g : name) : nat := lp (Datatypes.S (List.length (d_frags D))) g.
+(* the executable acyclicity test with a certificate: lp_rank decreases along every spread *)
+Definition ranked_b : bool :=
+  forallb (fun f => match frag D (fr_name f) with
+                    | Some fr => forallb (fun h => Nat.ltb (lp_rank h) (lp_rank (fr_name f))) (all_spreads (fr_sel fr))
+                    | None => true
+                    end) (d_frags D).
+End Lp.
